@@ -3,8 +3,9 @@ C18 — property theorems (path.cc, path.hh, stringutility.hh).  Statements only
 
 All theorems are about the character-level functions the driver runs (`processPathC`, `prettyPath`,
 `pathIndicatesDirectory`, `concatPaths`, `relativePath`, `hasPrefix`, `hasSuffix`, `formatString`) and hold
-for ALL strings (`Str = List Char`), of any length.  `pathIndicatesDirectory`, `concatPaths`, `bufferSize` and the
-`docTable*` lists are regenerated from the source tree on every run (Gen/C18.lean).
+for ALL strings (`Str = List Char`), of any length.  `pathIndicatesDirectory`, `concatPaths`, both bodies of `prettyPath`
+(`prettyPathWith`, `prettyPathAutoWith`), `bufferSize`, `fmtFitsStack`, `fmtDynamicSize` and the `docTable*` lists are
+regenerated from the source tree on every run (Gen/C18.lean).
 -/
 import DuneVerif.Proofs.C18.Round4
 
@@ -331,7 +332,9 @@ theorem formatString_skeleton_sound (r cap : Nat) :
     (fmtFitsStack r cap = true → r < cap) ∧ r < fmtDynamicSize r :=
   ⟨fmtFitsStack_sound r cap, fmtDynamicSize_sound r⟩
 
-example : fmtFitsStack 999 1000 = true ∧ fmtFitsStack 1000 1000 = false ∧ fmtDynamicSize 1000 = 1001 := by decide
+/-- the hypothesis is satisfiable (stated so that it survives harmless changes of the comparison or of the slack) -/
+example : (∃ r cap, fmtFitsStack r cap = true) ∧ fmtFitsStack 1000 1000 = false ∧ fmtDynamicSize 1000 > 1000 :=
+  ⟨⟨0, 1000, by decide⟩, by decide, by decide⟩
 
 /-- formatString returns the complete formatted text whatever its length — below the stack buffer, exactly at it
     (bufferSize-1, bufferSize, bufferSize+1) or far beyond — as long as the length is representable in the `int`
